@@ -39,6 +39,10 @@ fn generate(rng: &mut Rng) -> C17Sc {
         spec.ping_delay_ns = *rng.pick(&[0u64, 0, ms(700), secs(3)]);
         if rng.chance(1, 8) {
             spec.mute_after = Some(rng.range(0, 3) as usize); // goes silent: bounded by the timeout
+            // idle first, then stalling: the first byte comes late (without PROXY protocol the deadline counts from the accept)
+            if proxy.is_none() && spec.mute_after != Some(0) && rng.chance(1, 2) {
+                spec.cuts.push(Cut { at: 0, gate: Gate::Delay { ns: secs(timeout_s) / 100 * rng.range(30, 90) }, spurious: 0 });
+            }
         }
         spec.close_on_end_ns = Some(0);
         spec.coalesce = rng.chance(1, 2);
@@ -198,6 +202,16 @@ pub fn check(sc: &C17Sc, out: &NetOutcome, free: &NetOutcome, rep: &mut RunRepor
             }
         }
     }
+    // every connection is over one timeout after it was accepted (with PROXY protocol: header wait, then the exchange)
+    let bound = sc.net.cfg.timeout_ns * if sc.net.cfg.proxy.is_some() { 2 } else { 1 };
+    for (i, c) in out.clients.iter().enumerate() {
+        if let Some(acc) = c.accepted_ns
+            && c.closed_ns.is_none_or(|t| t > acc + bound)
+            && out.end_ns > acc + bound
+        {
+            rep.violate("drain_bounded_by_timeout", format!("connection {i} was accepted at {acc} ns and was still open {} ns later (timeout {} ns): closed {:?}", bound, sc.net.cfg.timeout_ns, c.closed_ns));
+        }
+    }
     // listen() returns no earlier than the end of the last in-flight connection
     let last_end = out.clients.iter().filter_map(|c| if c.rx_total > 0 { c.closed_ns } else { None }).max().unwrap_or(0);
     if ret < last_end {
@@ -259,7 +273,8 @@ impl Check for C17 {
             return RunReport::default();
         }
         // cuts only inside the PROXY header (a trickling header), nowhere else
-        if sc.net.clients.iter().any(|c| c.spec.cuts.iter().any(|k| c.spec.preamble.as_ref().is_none_or(|p| k.at == 0 || k.at >= p.len() as u64) || !matches!(k.gate, Gate::Delay { .. }))) {
+        // (or, without PROXY protocol, one in front of the first byte of a client that then stalls)
+        if sc.net.clients.iter().any(|c| c.spec.cuts.iter().any(|k| !matches!(k.gate, Gate::Delay { .. }) || match &c.spec.preamble { Some(p) => k.at == 0 || k.at >= p.len() as u64, None => k.at != 0 || c.spec.mute_after.is_none() })) {
             return RunReport::default();
         }
         let out = run_net(&sc.net);
